@@ -18,7 +18,7 @@ ls | grep -E "$PAT" | xargs -P $J -I{} sh -c '
     P8-*|P10-*|P13-*) if [ $v -eq 0 ] && [ $ok -ge 1 ]; then r=PASS; else r=FAIL; fi ;;
     *)    if grep -q "\"final\": \"NOT REPORTED" /verif/seeded/$id/meta.json; then
             # judged equivalent within the scope of the property, see its meta.json: must stay unreported
-            if [ $v -eq 0 ] && [ $ok -ge 1 ]; then r=PASS; else r=FAIL; fi
+            if [ $v -eq 0 ]; then r=PASS; else r=FAIL; fi
           elif [ $v -ge 1 ]; then r=PASS; else r=FAIL; fi ;;
   esac
   echo "$r $id violations=$v ok=$ok inconclusive=$inc"
